@@ -33,6 +33,7 @@ let () =
             | "server" -> J_server.run rest obs, J_server.oracle rest obs
             | "client" -> J_client.run rest obs, J_client.oracle rest obs
             | "hs" -> J_hs.run rest obs, J_hs.oracle rest obs
+            | "interop" -> J_interop.run rest obs, J_interop.oracle rest obs
             | _ -> "JUDGE-UNKNOWN-COMPONENT", []
           with e -> "JUDGE-EXN " ^ Printexc.to_string e, []) in
         (* generic observations of the harness: a panic (caught by catch_unwind) or a case that did not return within the
@@ -48,7 +49,7 @@ let () =
             | Some k when k + 1 < String.length tok ->
               (try Scanf.sscanf (String.sub tok k (String.length tok - k)) "r%d.%d" (fun n _ -> acc + n) with _ -> acc)
             | _ -> acc) 0 toks in
-        let allowance = 16 * String.length case + 16 * supplied + 20 * 1048576 in
+        let allowance = 16 * String.length case + 16 * supplied + (if comp = "interop" then 16 * String.length obs else 0) + 20 * 1048576 in
         let orc = orc @ (match alloc with
             | Some (peak, largest) when comp <> "amf0" || true -> if peak <= allowance && largest <= allowance then [] else ["C03.alloc_bounded", false]
             | _ -> []) in
